@@ -369,6 +369,7 @@ func c19Run(e *core.Env) {
 		}
 	}
 	c19Registry(e, bounds)
+	runLitmus(e)
 	if e.Take() {
 		raceTier(e, core.Pick(e, 6, 40))
 	}
